@@ -11,12 +11,19 @@ of them; stream-level statements are proved by induction over the line list thro
 * `classify (rstrip l)` — which of the line regexes matches, with its groups;
 * `countTests`, `maxNumber`, `planOf`, `hasBail`, `countPlans` — measures of an event list.
 
-Totality ("no input makes the parser raise") is by construction of the total model plus the
-correspondence run; the one input class on which CPython itself raises (more than 4300 digits) is the
-recorded finding and lies outside the model (`Nat` is unbounded).
+Totality ("no input makes the parser raise"): `parse_never_raises` over the exception-faithful layer (`int()`
+partial beyond 4300 digits, `try/except` as in the source) plus the correspondence run.
+
+Stream independence: the fresh parser is the explicit initial state `PState.init`, proved equal to the class
+body of the live `TAPParser` (`fresh_parser_table`, regenerated on every run); `session_*` theorems say what
+"the events of a stream depend on that stream only" means for sequences of streams in one process.
+
+Consumer: `runTAP` is `TestRunTAP.parse` / `complete` / `TestRun._complete` as a state machine;
+`verdict_classification` and its corollaries give the final result for every event list and exit status.
 -/
 import MesonModel.Tap.StepLemmas
 import MesonModel.Tap.VerdictLemmas
+import MesonModel.Tap.ConsumerLemmas
 import MesonModel.Generated.TapTables
 
 namespace MesonModel.Props.C18
@@ -721,5 +728,282 @@ example : (verdict false false 0 (parse ["ok # TODO".toList])).isBad = true := b
 example : (verdict false false 1 (parse ["ok".toList])).isBad = true := by decide
 
 end Examples
+
+/-! ### The events of a stream depend on that stream only (fresh parsers, sessions, second use)
+
+`TAPParser` has no `__init__`; a fresh instance reads the class-body attributes.  They are re-extracted from
+the live class on every run (`Generated.TapTables.parserClassAttrs`, `parserMutableClassAttrs`): the model's
+initial state must be exactly those defaults, and none of them may be a mutable container (a set / list /
+dict in the class body is shared by every instance and survives from one stream to the next). -/
+
+def pyBool (b : Bool) : String := if b then "True" else "False"
+def pyOptNat : Option Nat → String
+  | none => "None"
+  | some n => toString n
+def pyMode : Mode → String
+  | .main => "1" | .afterTest => "2" | .yaml => "3"
+
+/-- the attributes of a parser object in state `s`, as Python would print them (sorted by name) -/
+def attrsOf (s : PState) : List (String × String) :=
+  [("_AFTER_TEST", pyMode .afterTest), ("_MAIN", pyMode .main), ("_YAML", pyMode .yaml),
+   ("bailed_out", pyBool s.bailedOut), ("found_late_test", pyBool s.foundLateTest),
+   ("highest_test", toString s.highestTest), ("last_test", toString s.lastTest), ("lineno", toString s.lineno),
+   ("num_tests", toString s.numTests), ("plan", match s.plan with | none => "None" | some _ => "Plan"),
+   ("state", pyMode s.state), ("version", toString s.version),
+   ("yaml_indent", if s.yamlIndent.isEmpty then "''" else "str"), ("yaml_lineno", pyOptNat s.yamlLineno)]
+
+/-- the model's fresh parser is the class body of the live `TAPParser`, attribute by attribute -/
+theorem fresh_parser_table : attrsOf PState.init = MesonModel.Generated.TapTables.parserClassAttrs := by
+  decide
+
+/-- no class-body attribute of `TAPParser` / `TestRunTAP` (and bases) that the parser or the consumer mutates in
+place: nothing a stream leaves behind can be seen by the next parser -/
+theorem no_shared_mutable_parser_state : MesonModel.Generated.TapTables.parserMutableClassAttrs = [] := by
+  decide
+
+/-- `parse` is `parseFrom` the explicit initial state: the events are a function of (init, lines) only -/
+theorem parse_eq_parseFrom_init (lines : List (List Char)) : parse lines = parseFrom PState.init lines := rfl
+
+/-- using a parser never changes what the next fresh parser starts from -/
+theorem session_keeps_class_state (p : Proc) (ss : List (List (List Char))) :
+    (session p ss).1.cls = p.cls := session_fst_cls p ss
+
+/-- **sessions**: parsing streams `s1 … sn` one after the other with fresh parsers in one process gives, for
+every `sk`, the events of parsing `sk` alone -/
+theorem session_events (ss : List (List (List Char))) : (session Proc.boot ss).2 = ss.map parse := by
+  rw [session_snd]; rfl
+
+/-- … whatever was parsed before and whatever is parsed afterwards -/
+theorem stream_alone_in_session (pre post : List (List (List Char))) (s : List (List Char)) :
+    (session Proc.boot (pre ++ s :: post)).2[pre.length]? = some (parse s) := by
+  rw [session_events]; simp
+
+/-- … and whatever the process did before the session started -/
+theorem session_after_session (ss1 ss2 : List (List (List Char))) :
+    (session (session Proc.boot ss1).1 ss2).2 = ss2.map parse := by
+  rw [session_snd, session_fst_cls]; rfl
+
+/-- … in any order: the (stream, events) pairs of two orders of the same streams are the same pairs -/
+theorem session_order_irrelevant (ss ss' : List (List (List Char))) (h : ss.Perm ss') :
+    (ss.zip (session Proc.boot ss).2).Perm (ss'.zip (session Proc.boot ss').2) := by
+  have hz : ∀ l : List (List (List Char)), l.zip (l.map parse) = l.map (fun s => (s, parse s)) := by
+    intro l; induction l with
+    | nil => rfl
+    | cons a l ih => simp [ih]
+  rw [session_events, session_events, hz, hz]
+  exact h.map _
+
+/-- the same stream twice gives the same events twice (one-shot errors are one-shot per stream, not per process) -/
+theorem second_use_same_events (s : List (List Char)) (between : List (List (List Char))) :
+    (session Proc.boot (s :: between ++ [s])).2.head? = some (parse s) ∧
+    (session Proc.boot (s :: between ++ [s])).2.getLast? = some (parse s) := by
+  rw [session_events]
+  refine ⟨by simp, ?_⟩
+  have : (s :: between ++ [s]).map parse = (parse s :: between.map parse) ++ [parse s] := by simp
+  rw [this, List.getLast?_append]
+  simp
+
+/-- a parser object that is used keeps its own record: every used instance is remembered, none is shared -/
+theorem session_instances (ss : List (List (List Char))) : (session Proc.boot ss).1.used.length = ss.length := by
+  rw [session_used_length]; simp [Proc.boot]
+
+example : (session Proc.boot [["ok 1".toList, "1..2".toList, "ok 2".toList],
+                              ["ok 1".toList, "1..2".toList, "ok 2".toList]]).2 =
+    [[.test 1 [] .OK none, .plan ⟨2, true, false, none⟩, .error .lateTest, .test 2 [] .OK none],
+     [.test 1 [] .OK none, .plan ⟨2, true, false, none⟩, .error .lateTest, .test 2 [] .OK none]] := by decide
+
+/-! ### The consumer: `TestRunTAP.parse` / `complete` as a state machine, and the classification rule -/
+
+/-- the state-machine model of the consumer computes the verdict of the fold model (`verdict_bad_iff` and the
+classification below therefore speak about both) -/
+theorem runTAP_res (ef inter : Bool) (rc : Int) (evs : List Event) :
+    (runTAP ef inter rc .RUNNING evs).res = verdict ef inter rc evs := by
+  unfold runTAP completeTAP parseTAP endParse verdict completeRes parseRes
+  simp only [foldl_results, foldl_localRes, foldl_res, List.nil_append, all_isSkipTest_filter]
+  cases hf : foldRes none evs with
+  | none => cases allSkip evs <;> simp
+  | some r =>
+    cases allSkip evs
+    · simp
+    · by_cases hr : r = .ERROR <;> simp [hr]
+
+/-- `self.results` is the list of subtest events, in order; `additional_error` gets one message per error event;
+one warning per unknown line -/
+theorem runTAP_records (ef inter : Bool) (rc : Int) (r0 : TestResult) (evs : List Event) :
+    (runTAP ef inter rc r0 evs).results = evs.filter isTestEvent ∧
+    (runTAP ef inter rc r0 evs).errs = evs.filterMap errOf ∧
+    (runTAP ef inter rc r0 evs).warns = evs.filterMap unknownOf := by
+  unfold runTAP completeTAP parseTAP endParse
+  simp [foldl_results, foldl_errs, foldl_warns]
+
+/-- **classification rule**, for every event list and every exit status: a failed / unexpectedly passed subtest
+after which no error or bail-out follows ⇒ FAIL; an error or bail-out event after which no bad subtest follows ⇒
+ERROR; neither: non-zero exit ⇒ ERROR, else every subtest skipped (or none at all) ⇒ SKIP, else OK -/
+theorem verdict_classification (evs : List Event) (rc : Int) :
+    verdict false false rc evs = specVerdict evs rc := by
+  unfold verdict parseRes completeRes specVerdict
+  rw [foldRes_eq_lastTrigger]
+  cases ht : lastTrigger evs with
+  | none =>
+    by_cases hrc : rc = 0 <;> cases allSkip evs <;> simp [hrc, TestResult.isBad]
+  | some t =>
+    cases t with
+    | error => cases allSkip evs <;> simp [Trigger.res, TestResult.isBad]
+    | fail =>
+      have hb := lastTrigger_fail_bad evs ht
+      have hs : allSkip evs = false := by
+        cases h : allSkip evs with
+        | false => rfl
+        | true => rw [allSkip_no_bad evs h] at hb; exact absurd hb (by simp)
+      simp [hs, Trigger.res, TestResult.isBad]
+
+/-- the result of an ordinary TAP test is one of OK, SKIP, FAIL, ERROR -/
+theorem verdict_range (evs : List Event) (rc : Int) :
+    verdict false false rc evs ∈ [TestResult.OK, .SKIP, .FAIL, .ERROR] := by
+  rw [verdict_classification]; unfold specVerdict
+  cases lastTrigger evs with
+  | none => by_cases hrc : rc = 0 <;> cases allSkip evs <;> simp [hrc]
+  | some t => cases t <;> simp
+
+theorem no_trigger_iff (evs : List Event) :
+    lastTrigger evs = none ↔ (hasBadSubtest evs = false ∧ hasErrorOrBail evs = false) := by
+  rw [lastTrigger_none_iff, any_trigger]; simp
+
+/-- **all subtests ok ⇒ OK** (and only then): OK iff no bad subtest, no error / bail-out, exit status 0 and at
+least one subtest that is not skipped -/
+theorem verdict_ok_iff (evs : List Event) (rc : Int) :
+    verdict false false rc evs = .OK ↔
+      (hasBadSubtest evs = false ∧ hasErrorOrBail evs = false ∧ rc = 0 ∧ allSkip evs = false) := by
+  rw [verdict_classification, ← and_assoc, ← no_trigger_iff]; unfold specVerdict
+  cases lastTrigger evs with
+  | none => by_cases hrc : rc = 0 <;> cases allSkip evs <;> simp [hrc]
+  | some t => cases t <;> simp
+
+/-- **all-skip ⇒ SKIP** (and only then): SKIP iff nothing bad happened, exit status 0, and every subtest is
+skipped — which includes a stream without subtests (`1..0 # SKIP`, or no output at all) -/
+theorem verdict_skip_iff (evs : List Event) (rc : Int) :
+    verdict false false rc evs = .SKIP ↔
+      (hasBadSubtest evs = false ∧ hasErrorOrBail evs = false ∧ rc = 0 ∧ allSkip evs = true) := by
+  rw [verdict_classification, ← and_assoc, ← no_trigger_iff]; unfold specVerdict
+  cases lastTrigger evs with
+  | none => by_cases hrc : rc = 0 <;> cases allSkip evs <;> simp [hrc]
+  | some t => cases t <;> simp
+
+/-- **any failure ⇒ FAIL** when the stream has no error / bail-out event (whatever the exit status) -/
+theorem failures_only_is_fail (evs : List Event) (rc : Int)
+    (hb : hasBadSubtest evs = true) (he : hasErrorOrBail evs = false) : verdict false false rc evs = .FAIL := by
+  rw [verdict_classification]; unfold specVerdict
+  cases ht : lastTrigger evs with
+  | none => rw [no_trigger_iff] at ht; simp [hb] at ht
+  | some t =>
+    cases t with
+    | fail => rfl
+    | error => have := lastTrigger_error_has evs ht; simp [he] at this
+
+/-- **error event, bail-out or bad exit ⇒ ERROR** when no subtest is bad -/
+theorem errors_only_is_error (evs : List Event) (rc : Int)
+    (hb : hasBadSubtest evs = false) (he : hasErrorOrBail evs = true ∨ rc ≠ 0) :
+    verdict false false rc evs = .ERROR := by
+  rw [verdict_classification]; unfold specVerdict
+  cases ht : lastTrigger evs with
+  | none =>
+    rw [no_trigger_iff] at ht
+    rcases he with he | he
+    · simp [ht.2] at he
+    · simp [he]
+  | some t =>
+    cases t with
+    | error => rfl
+    | fail => have := lastTrigger_fail_bad evs ht; simp [hb] at this
+
+/-- FAIL needs a bad subtest, ERROR needs an error / bail-out event or a non-zero exit -/
+theorem verdict_fail_error_causes (evs : List Event) (rc : Int) :
+    (verdict false false rc evs = .FAIL → hasBadSubtest evs = true) ∧
+    (verdict false false rc evs = .ERROR → (hasErrorOrBail evs = true ∨ rc ≠ 0)) := by
+  rw [verdict_classification]; unfold specVerdict
+  cases ht : lastTrigger evs with
+  | none => by_cases hrc : rc = 0 <;> cases allSkip evs <;> simp [hrc]
+  | some t =>
+    cases t with
+    | fail => simp [lastTrigger_fail_bad evs ht]
+    | error => simp [lastTrigger_error_has evs ht]
+
+/-- `lastTrigger` is what its name says: `fail` iff the list splits around a bad subtest after which nothing
+sets the result any more -/
+theorem lastTrigger_fail_iff (evs : List Event) :
+    lastTrigger evs = some .fail ↔
+      ∃ pre post n nm r ex, evs = pre ++ .test n nm r ex :: post ∧ r.isBad = true ∧ post.any isTrigger = false := by
+  constructor
+  · induction evs with
+    | nil => simp [lastTrigger]
+    | cons e es ih =>
+      simp only [lastTrigger]
+      cases h : lastTrigger es with
+      | some t =>
+        intro ht
+        have : t = .fail := by simpa using ht
+        subst this
+        obtain ⟨pre, post, n, nm, r, ex, h1, h2, h3⟩ := ih h
+        exact ⟨e :: pre, post, n, nm, r, ex, by simp [h1], h2, h3⟩
+      | none =>
+        intro ht
+        cases e with
+        | test n nm r ex =>
+          cases hb : r.isBad <;> simp [triggerOf, hb] at ht
+          exact ⟨[], es, n, nm, r, ex, rfl, hb, (lastTrigger_none_iff es).mp h⟩
+        | _ => simp [triggerOf] at ht
+  · rintro ⟨pre, post, n, nm, r, ex, h1, h2, h3⟩
+    subst h1
+    rw [lastTrigger_append]
+    simp [lastTrigger, (lastTrigger_none_iff post).mpr h3, triggerOf, h2]
+
+/-- **a plan/count mismatch or duplicate/missing numbers make the TAP test ERROR**: the end-of-stream errors
+come last, so for every stream whose output contains one the result is ERROR whatever the exit status -/
+theorem end_of_stream_error_is_error (lines : List (List Char)) (rc : Int)
+    (h : expectedEnd (parse lines) ≠ []) : verdict false false rc (parse lines) = .ERROR := by
+  rw [← end_of_stream_errors] at h
+  have D := run_delta PState.init lines
+  have hnf : (run PState.init lines).2.filter isFinalErr = [] := by
+    rw [List.filter_eq_nil_iff]; intro e he; simp [D.noFinal e he]
+  have hfin : finish (run PState.init lines).1 ≠ [] := by
+    intro hc
+    apply h
+    simp [parse, List.filter_append, hnf, hc]
+  have hl := lastTrigger_errors _ (finish_errors (run PState.init lines).1) hfin
+  rw [verdict_classification]; unfold specVerdict
+  have : lastTrigger (parse lines) = some .error := by
+    simp only [parse]; rw [lastTrigger_append, hl]
+  rw [this]
+
+/-- an unterminated YAML block at the end of the stream makes the TAP test ERROR as well -/
+theorem open_yaml_is_error (lines : List (List Char)) (rc : Int)
+    (h : (run PState.init lines).1.state = .yaml) : verdict false false rc (parse lines) = .ERROR := by
+  have hfin : finish (run PState.init lines).1 ≠ [] := by simp [finish, h]
+  have hl := lastTrigger_errors _ (finish_errors (run PState.init lines).1) hfin
+  rw [verdict_classification]; unfold specVerdict
+  have : lastTrigger (parse lines) = some .error := by
+    simp only [parse]; rw [lastTrigger_append, hl]
+  rw [this]
+
+/-- a test that was killed while its output was parsed (TIMEOUT / INTERRUPT set by `TestSubprocess.wait`) keeps
+that result: neither the events nor the exit status can overwrite it -/
+theorem killed_test_keeps_result (evs : List Event) (rc : Int) (r0 : TestResult)
+    (h : r0 = .TIMEOUT ∨ r0 = .INTERRUPT) : (runTAP false false rc r0 evs).res = r0 := by
+  have h1 : (parseTAP r0 evs).res = r0 := by
+    unfold parseTAP endParse
+    simp only [foldl_res]
+    rcases h with h | h <;> subst h <;> (split <;> simp)
+  unfold runTAP completeTAP
+  rw [h1]
+  rcases h with h | h <;> subst h <;> simp [TestResult.isBad]
+
+example : verdict false false 0 [.error .secondPlan, .test 1 [] .FAIL none] = .FAIL := by decide
+example : verdict false false 0 [.test 1 [] .FAIL none, .error .secondPlan] = .ERROR := by decide
+example : verdict false false 0 [] = .SKIP := by decide
+example : verdict false false 77 [.test 1 [] .SKIP none] = .ERROR := by decide
+example : verdict false false 0 [.test 1 [] .SKIP none, .test 2 [] .EXPECTEDFAIL none] = .OK := by decide
+example : (runTAP false false 0 .RUNNING (parse ["ok".toList, "garbage".toList])).warns = [("garbage".toList, 2)] := by
+  decide
+example : expectedEnd (parse ["1..2".toList, "ok".toList]) ≠ [] := by decide
 
 end MesonModel.Props.C18
